@@ -191,3 +191,19 @@ func init() {
 		return (*Ptr)(nil)
 	})
 }
+
+// utility.ntpOffset queries NTP servers (and retries forever when asked to): the clock offset is 0,
+// as in the natively compiled replay (report.go patchNtp)
+func init() {
+	reg("com.tuntun.rangers/node/src/utility.ntpOffset", func(in *Interp, fr *frame, a []Value, _ *ssa.CallCommon) Value {
+		return in.mkInt(0)
+	})
+}
+
+// utility.GetTime = wall clock + NTP offset (refreshed by a background ticker): the fixed instant
+// of the time.Now stub
+func init() {
+	reg("com.tuntun.rangers/node/src/utility.GetTime", func(in *Interp, fr *frame, a []Value, c *ssa.CallCommon) Value {
+		return intrinsics["time.Now"](in, fr, nil, c)
+	})
+}
